@@ -39,13 +39,16 @@ def build(s: DScn):
     """returns (machine class, model class)"""
     from statemachine import State, StateMachine
 
+    gv = lambda n: s.guard_vals.get(n, True)
+    # guards given as property objects: one property per name, living on the class of the provider of that name
+    props = {nm: property(_method(nm, gv(nm))) for t in s.trans for nm, style in t.cond + t.unless if style == "prop"}
+
     def inline(lst, ret_of=lambda n: None):
         out = []
         for nm, style in lst:
-            out.append(nm if style == "name" else _fn(nm, ret_of(nm)))
+            out.append(nm if style == "name" else props[nm] if style == "prop" else _fn(nm, ret_of(nm)))
         return out or None
 
-    gv = lambda n: s.guard_vals.get(n, True)
     states = []
     for st in s.states:
         kw = {}
@@ -87,9 +90,14 @@ def build(s: DScn):
             by_attr[t.attr] = (by_attr[t.attr] | tl) if t.attr in by_attr else tl
     for a, tl in by_attr.items():
         ns[a] = tl
+    if getattr(s, "coro", False):
+        async def after_transition(self):
+            return None
+        ns["after_transition"] = after_transition
     for nm in s.machine_methods:
-        ns[nm] = _method(nm, gv(nm))
-    model_ns = {nm: _method(nm, gv(nm)) for nm in s.model_methods}
+        ns[nm] = props.get(nm) or _method(nm, gv(nm))
+    model_ns = {nm: (props[nm] if nm in props and nm not in s.machine_methods else _method(nm, gv(nm)))
+                for nm in s.model_methods}
     with warnings.catch_warnings():
         warnings.simplefilter("ignore")
         cls = type(StateMachine)("M_" + re.sub(r"\W", "_", s.name), (StateMachine,), ns)
@@ -311,7 +319,10 @@ def observe(s: DScn) -> Observed:
         return ob
     direct = default_style and s.via == "graph"
     cur = lambda: repr(sm.current_state_value)
-    snap(("inst", cur()), sm, direct)
+    if sm.current_state_value is None:
+        snap(("unset",), sm, direct)
+    else:
+        snap(("inst", cur()), sm, direct)
     for w in s.walks:
         for ev in w:
             try:
